@@ -66,7 +66,8 @@ func structural(ss []string, full bool) []string {
 			`"items":`+a, `"contains":`+a, `"not":`+a,
 			`"properties":{"a":`+a+`},"additionalProperties":false`, `"patternProperties":{"^a":`+a+`},"additionalProperties":false`,
 			`"properties":{"a":`+a+`},"required":["a"]`, `"$defs":{"d":`+a+`},"$ref":"#/$defs/d"`, `"$defs":{"d":`+a+`},"properties":{"a":{"$ref":"#/$defs/d"}}`,
-			`"items":`+a+`,"minItems":1`, `"contains":`+a+`,"maxItems":1`)
+			`"items":`+a+`,"minItems":1`, `"contains":`+a+`,"maxItems":1`,
+			`"contains":`+a+`,"minContains":0`, `"contains":`+a+`,"maxContains":1`, `"contains":`+a+`,"minContains":2`, `"contains":`+a+`,"minContains":0,"maxContains":1`)
 		for _, b := range ss {
 			out = append(out,
 				`"allOf":[`+a+`,`+b+`]`, `"anyOf":[`+a+`,`+b+`]`, `"oneOf":[`+a+`,`+b+`]`,
@@ -251,7 +252,7 @@ func keywordsOf(schema string) string {
 func tags(schema string) string {
 	var x any
 	json.Unmarshal([]byte(schema), &x)
-	falseComb, container, propNames, allOf3, ifDisjoint := false, false, false, false, false
+	falseComb, container, propNames, allOf3, ifDisjoint, containsFalse := false, false, false, false, false, false
 	// typeSet returns the set of JSON types a schema's "type" keyword allows
 	typeSet := func(v any) map[string]bool {
 		m, ok := v.(map[string]any)
@@ -348,6 +349,14 @@ func tags(schema string) string {
 					walk(e)
 				}
 			case "items", "contains", "additionalProperties":
+				if b, ok := v.(bool); ok && !b && k == "contains" {
+					// minContains:0 makes contains vacuous; the translation is
+					// list.MatchN(>=0, error("disallowed")), whose error argument
+					// fails the call
+					if mc, ok := m["minContains"].(float64); ok && mc == 0 {
+						containsFalse = true
+					}
+				}
 				walk(v)
 			}
 		}
@@ -368,6 +377,9 @@ func tags(schema string) string {
 	}
 	if ifDisjoint {
 		t += " if-branch-unsatisfiable-by-type"
+	}
+	if containsFalse {
+		t += " contains-false-with-minContains-0"
 	}
 	return t
 }
